@@ -2,7 +2,7 @@
    Only property theorems, each closed by quoting lemmas proved elsewhere, and Print Assumptions.
    Generated from Properties/bodies/C16.v.in by mkprop.py (shared preamble: hdr.txt, sec.txt). *)
 From Coq Require Import Arith NArith Bool List Lia.
-Require Import Canon SemTk CountTk TableProto BddBase BddIte BddCR BddSat BddCof BddCof2 BddCtor BddEval BddPaths BddPathsCount BddReach BddExport BddDot BddMinimal BddTerm BddTerm2 Glue Machine Reachable OpSpecs FuelMono FuelMono2 SpecCor.
+Require Import Canon SemTk CountTk TableProto BddBase BddIte BddCR BddSat BddCof BddCof2 BddCtor BddEval BddPaths BddPathsCount BddReach BddExport BddDot BddMinimal BddTerm BddTerm2 Glue Machine Reachable OpSpecs FuelMono FuelMono2 SpecCor BddBracketText.
 Import ListNotations.
 Local Open Scope N_scope.
 
@@ -60,6 +60,14 @@ Section C16.
   Theorem C16_dot_returns mr l rl : reachable mr -> fetch_all (snd mr) l = Some rl ->
     exists bound, forall fuel, (bound <= fuel)%nat -> exists recs, mstep fuel mr (HDot l) = Some (mr, ODot recs).
   Proof. exact (dot_step_returns nhash khash bmask cmask0 smask0 capacity cap_ok mr l rl). Qed.
+  (* the text layer of the bracket string: the token tree is printed as the token sequence `flatten t` (`r:(x v, ` high `, `
+     low `)` for a node printed for the first time, `r` for a back reference, the two constants; the driver prints exactly
+     these tokens and the result is compared with the crate's text character for character).  The sequence is uniquely
+     readable: a recursive-descent reader returns the tree and exactly what followed it, so the text determines the tree. *)
+  Theorem C16_bracket_text_uniquely_readable t rest : read (length (flatten t)) (flatten t ++ rest) = Some (t, rest).
+  Proof. exact (read_flatten t rest). Qed.
+  Theorem C16_bracket_text_injective t1 t2 : flatten t1 = flatten t2 -> t1 = t2.
+  Proof. exact (flatten_injective t1 t2). Qed.
 End C16.
 
 Print Assumptions C16_queries_pure.
@@ -70,3 +78,5 @@ Print Assumptions C16_dot_faithful.
 Print Assumptions C16_bracket_returns.
 Print Assumptions C16_descendants_returns.
 Print Assumptions C16_dot_returns.
+Print Assumptions C16_bracket_text_uniquely_readable.
+Print Assumptions C16_bracket_text_injective.
